@@ -195,6 +195,75 @@ def judge(kind, f, out):
     return exp
 
 
+def assign(kind, m, f):
+    """put the field assignment f onto an EXISTING message object (history / object reuse)"""
+    e = env()
+    dm = e["dm"]
+    m.fn, m.tn, m.ver = f["fn"], f["tn"], f["ver"]
+    bl = f["bl"]
+    if kind == "tx":
+        m.pwr = f["pwr"]
+        m.burst = None if bl is None else e["bursts_tx"].setdefault(bl, bytearray(i & 1 for i in range(bl)))
+        return m
+    m.rssi, m.toa256, m.ci, m.nope_ind = f["rssi"], f["toa"], f["ci"], f["nope"]
+    mod = f["mod"]
+    m.mod_type = dm.Modulation[mod] if mod in MOD_BL else (None if mod is None else 0)
+    m.tsc_set, m.tsc = f["tsc_set"], f["tsc"]
+    if bl is None:
+        m.burst = None
+    else:
+        from array import array as _a
+        m.burst = e["bursts_rx"].setdefault(bl, _a('b', [(-127 if i & 1 else 127) for i in range(bl)]))
+    return m
+
+
+def judge_reuse(kind, f_valid, f, out):
+    """History on one object: encode a valid message, change fields on the SAME object to the assignment f,
+    encode / send again.  The second outcome must be what a fresh object with f gives per the predicate."""
+    e = env()
+    fab = e["fab"]
+    exp = ref_valid(kind, f)
+    if exp is None:
+        return
+    m = build(kind, f_valid)
+    try:
+        m.gen_msg(False)
+    except Exception:
+        return          # the base point itself is refused: judged elsewhere
+    fab.out = []
+    e["dif"].send_msg(m, False)
+    fab.out = []
+    assign(kind, m, f)
+    try:
+        m.gen_msg(False)
+        g_ok, g_exc = True, None
+    except ValueError:
+        g_ok, g_exc = False, None
+    except Exception as ex:
+        g_ok, g_exc = False, type(ex).__name__
+    s_exc = None
+    try:
+        e["dif"].send_msg(m, False)
+    except BaseException as ex:
+        s_exc = type(ex).__name__
+    sent = fab.out
+    fab.out = []
+    bad = ",".join("%s=%s" % (k, f[k]) for k in sorted(f) if not field_ok(kind, k, f)) or "all-in-range"
+    case = {"kind": kind, "fields": f, "reuse_from": f_valid}
+    if g_exc:
+        out.append(("C13:%s:reuse:gen-raises-%s:%s" % (kind, g_exc, bad), case, "after re-assigning the fields of an already encoded "
+                    "message object gen_msg() raised %s instead of ValueError" % g_exc))
+    elif g_ok != exp:
+        out.append(("C13:%s:reuse:%s:%s" % (kind, "gen-accepts" if g_ok else "gen-rejects", bad), case,
+                    "message object encoded once with valid fields, then changed to %s: gen_msg() %s it although it is %s"
+                    % (bad, "encoded" if g_ok else "refused", "valid" if exp else "invalid")))
+    if s_exc:
+        out.append(("C13:%s:reuse:send-raises-%s:%s" % (kind, s_exc, bad), case, "send_msg() raised %s" % s_exc))
+    elif (len(sent) == 1) != exp:
+        out.append(("C13:%s:reuse:%s:%s" % (kind, "send-emits" if sent else "send-silent", bad), case,
+                    "message object sent once with valid fields, then changed to %s: send_msg() emitted %d datagram(s)" % (bad, len(sent))))
+
+
 def field_ok(kind, k, f):
     v = f[k]
     if k == "ver":
@@ -286,6 +355,18 @@ def work_rx_product(arg):
         exp = judge("rx", f, out)
         cov["evaluations"] += 1
         cov["decided_valid" if exp else ("undecided" if exp is None else "decided_invalid")] += 1
+    # object reuse: from the valid base point change one field (or the dependent cluster) at a time on the same object
+    base = dict(f0, **RX_BASE)
+    cov["reuse_evaluations"] = 0
+    if ref_valid("rx", base):
+        singles = [("fn", FN_SET), ("tn", TN_SET), ("rssi", RSSI_SET), ("toa", TOA_SET), ("ci", CI_SET), ("tsc", TSC_SET),
+                   ("tsc_set", TSCSET_SET), ("mod", MOD_SET), ("bl", burst_lens(f0["mod"])), ("nope", [False, True]), ("ver", VER_SET)]
+        for k, vals in singles:
+            for v in vals:
+                f = dict(base)
+                f[k] = v
+                judge_reuse("rx", base, f, out)
+                cov["reuse_evaluations"] += 1
     return {"cov": cov, "viol": out}
 
 
@@ -301,6 +382,15 @@ def work_tx(arg):
             cov["evaluations"] += 1
             cov["decided_valid" if exp else ("undecided" if exp is None else "decided_invalid")] += 1
     samples.append(f)
+    cov["reuse_evaluations"] = 0
+    base = dict(TX_BASE, ver=ver, bl=148)
+    if ref_valid("tx", base):
+        for k, vals in (("fn", FN_SET), ("tn", TN_SET), ("pwr", PWR_SET), ("bl", BASE_LENS), ("ver", VER_SET)):
+            for v in vals:
+                g = dict(base)
+                g[k] = v
+                judge_reuse("tx", base, g, out)
+                cov["reuse_evaluations"] += 1
     return {"cov": cov, "viol": out, "samples": samples}
 
 
@@ -335,6 +425,11 @@ def run(ctx):
 
 def replay(ctx, case):
     out = []
+    if case.get("reuse_from"):
+        judge_reuse(case["kind"], case["reuse_from"], case["fields"], out)
+        for v in out:
+            ctx.violation(*v)
+        return
     judge(case["kind"], case["fields"], out)
     for v in out:
         ctx.violation(*v)
